@@ -4,7 +4,7 @@
    Statements only; proofs in Proofs/RegressionP.v. *)
 From Coq Require Import ZArith List Bool QArith Qcanon String.
 From TE Require Import Base.Val Base.Nd Base.Xq Algebra.Metric Algebra.MergeTree
-  Models.Aggregation Models.Aggregation2 Models.Regression Models.Stat Proofs.RegressionP Proofs.CovP.
+  Models.Aggregation Models.Aggregation2 Models.Regression Models.Stat Proofs.RegressionP Proofs.CovP Proofs.WassP.
 Import ListNotations.
 Open Scope list_scope.
 Open Scope Qc_scope.
@@ -90,20 +90,18 @@ Proof. exact trapz_step. Qed.
 Theorem auc_sort_is_stable : forall p q l, fst p = fst q -> ins_pair p (q :: l) = p :: q :: l.
 Proof. exact ins_pair_stable. Qed.
 
-(* ---- Wasserstein1D (definitional, PARTIAL): the value is the sum, over consecutive points v < v' of the sorted
-   merged support, of |F_x(v) - F_y(v)| * (v' - v), where F(v) = (cumulative weight at the searchsorted-right
-   index of v in the value-sorted sample) / (total weight).  Proved: this unfolding of the model.  Missing
-   (tied by correspondence only): that the cumulative weight at that index equals the sum of the weights of the
-   samples <= v, and that sort_q / sort_pairs of the model are sorted permutations for the weights too. ---- *)
-Theorem wasserstein_cdf_spec_partial : forall x xw y yw sx sy v v' r,
+(* ---- Wasserstein1D: the value is the sum, over consecutive points v < v' of the sorted merged support, of
+   |F_x(v) - F_y(v)| * (v' - v), where the model's F (cumulative weight at the searchsorted-right index of v in
+   the value-sorted sample / total weight) IS the weighted empirical CDF of the sample as given:
+   (sum of w_i with x_i <= v) / (sum of all w_i) -- any input order, ties included ---- *)
+Theorem wasserstein_cdf_spec : forall x xw y yw,
   wass x xw y yw = sumQ (w_terms (sort_pairs (combine x xw)) (sort_pairs (combine y yw)) (sort_q (x ++ y)))
-  /\ w_terms sx sy (v :: v' :: r) = qabs (cdf_at sx v - cdf_at sy v) * (v' - v) :: w_terms sx sy (v' :: r)
-  /\ cdf_at sx v = nth (ss_right (map fst sx) v) (cum0 0 (map snd sx)) 0 / last (cum0 0 (map snd sx)) 0
-  /\ Permutation.Permutation (combine x xw) (sort_pairs (combine x xw))
-  /\ Sorted.StronglySorted le1 (sort_pairs (combine x xw)).
+  /\ (forall l v, cdf_at (sort_pairs l) v = (0 + wsum_le l v) / (0 + wsum l))
+  /\ (forall sx sy v v' r, w_terms sx sy (v :: v' :: r) = qabs (cdf_at sx v - cdf_at sy v) * (v' - v) :: w_terms sx sy (v' :: r))
+  /\ Permutation.Permutation (x ++ y) (sort_q (x ++ y)) /\ Sorted.StronglySorted Qcle (sort_q (x ++ y)).
 Proof.
-  intros. split; [reflexivity|]. split; [reflexivity|]. split; [reflexivity|].
-  split; [apply sort_pairs_perm|apply sort_pairs_sorted].
+  intros. split; [reflexivity|]. split; [exact cdf_spec|]. split; [reflexivity|].
+  split; [apply sort_q_perm|apply sort_q_sorted].
 Qed.
 
 (* ---- Throughput (definitional): items / seconds, 0.0 before any update ---- *)
@@ -172,4 +170,4 @@ Print Assumptions cov_chan_spec.
 Print Assumptions cov_stream_spec.
 Print Assumptions cov_two_pass_spec.
 Print Assumptions cov_guard_too_few_samples.
-Print Assumptions wasserstein_cdf_spec_partial.
+Print Assumptions wasserstein_cdf_spec.
